@@ -15,6 +15,7 @@ from typing import Any, Dict, List, Optional
 from rpv.checks.inproc_util import candidate_days, clean_cut, get_ip, sched_from_json, sched_json
 from rpv.gen import METHODS, Profile, dstr, history, q11
 from rpv.model import Model
+from rpv.workload import deepen
 from rpv.oracle.balance import check_balances, is_valid, overdraft
 from rpv.oracle.trace import consumed_per_lot
 
@@ -109,7 +110,7 @@ def run_shard(ctx: Any) -> None:
     done = 0
     while done < share and (ctx.budget_s - ctx.time_left()) < ctx.budget_s * 0.75:
         rng = ctx.rng("case", index)
-        hist = history(rng, PROFILES[index % len(PROFILES)])
+        hist = history(rng, deepen(ctx, index, PROFILES[index % len(PROFILES)]))
         if is_valid(Model(hist)):
             sched = {1970: rng.choice(METHODS)}
             _observe(ctx, ip, hist, sched, None, rng.random() < 0.2)
